@@ -101,6 +101,18 @@ Definition content_type_charset (ct : bytes) : option bytes :=
     else None
   end.
 
+(* encoding_rs::Encoding::for_label, its normalisation made explicit: leading and trailing ASCII
+   whitespace (09 0A 0C 0D 20) is skipped and ASCII letters are lower-cased before the label table is
+   searched; what is left with other characters, or with whitespace inside, is in no table.  The table
+   itself stays a parameter ([lookup], on normalised labels). *)
+Definition is_label_ws (b : N) : bool :=
+  (N.eqb b 9 || N.eqb b 10 || N.eqb b 12 || N.eqb b 13 || N.eqb b 32)%bool.
+Definition label_trim (l : bytes) : bytes :=
+  rev (drop_while is_label_ws (rev (drop_while is_label_ws l))).
+Definition label_norm (l : bytes) : bytes := lower (label_trim l).
+Definition for_label_of {enc : Type} (lookup : bytes -> option enc) (l : bytes) : option enc :=
+  lookup (label_norm l).
+
 Section WithEncodings.
   (* encoding_rs: Encoding::for_label(label bytes),
      decode_without_bom_handling_and_without_replacement *)
